@@ -34,15 +34,17 @@ Proof. intro H. apply nth_error_Some. congruence. Qed.
 (* ------------------------------------------------------------------ *)
 (* the step function as a relation with one constructor per action of the code *)
 
-Definition st_q (s : st) q := mkSt q (prod s) (ext s) (closed s) (cur s) (loops s) (commits s) (log s).
+Definition st_q (s : st) q := mkSt q (prod s) (ext s) (closed s) (cur s) (loops s) (commits s) (log s) (sigd s).
 
 Inductive Step (c : cfg) (s : st) : act -> st -> Prop :=
-| S_push m r : prod s = m :: r -> (length (queue s) <= cap c)%nat ->
-    Step c s APush (mkSt (queue s ++ [m]) r (ext s) (closed s) (cur s) (loops s) (commits s) (log s))
+| S_push m r : prod s = m :: r -> (length (queue s) <= cap c)%nat -> sigs_clear c s = true ->
+    Step c s APush (mkSt (queue s ++ [m]) r (ext s) (closed s) (cur s) (loops s) (commits s) (log s) (sigd s))
 | S_close : closed s = false ->
-    Step c s AClose (mkSt (queue s) (prod s) (ext s) true (cur s) (loops s) (commits s) (log s))
+    Step c s AClose (mkSt (queue s) (prod s) (ext s) true (cur s) (loops s) (commits s) (log s) (sigd s))
 | S_ext k : ext s = S k ->
-    Step c s AExt (try_replace (mkSt (queue s) (prod s) k (closed s) (cur s) (loops s) (commits s) (log s)))
+    Step c s AExt (try_replace (mkSt (queue s) (prod s) k (closed s) (cur s) (loops s) (commits s) (log s) (sigd s)))
+| S_sig r : sig_enabled c s r = true ->
+    Step c s (ASig r) (mkSt (queue s) (prod s) (ext s) (closed s) (cur s) (loops s) (commits s) (log s) (sigd s ++ [r]))
 | S_sel_done l lp : nth_error (loops s) l = Some lp -> l_pc lp = PSelect -> l_done lp = true ->
     Step c s (ALoop l AltDone) (set_pc s l lp PExit)
 | S_sel_conn l lp : nth_error (loops s) l = Some lp -> l_pc lp = PSelect -> closed s = true ->
@@ -51,45 +53,69 @@ Inductive Step (c : cfg) (s : st) : act -> st -> Prop :=
     Step c s (ALoop l AltQueue) (set_pc (st_q s q) l lp (PDeq m))
 | S_deq l lp m a : nth_error (loops s) l = Some lp -> l_pc lp = PDeq m ->
     Step c s (ALoop l a) (mkSt (queue s) (prod s) (ext s) (closed s) (cur s)
-                               (upd l (mkLoop (l_done lp) false (PBusy m)) (loops s)) (commits s ++ [m]) (log s))
-| S_busy l lp m a : nth_error (loops s) l = Some lp -> l_pc lp = PBusy m ->
+                               (upd l (mkLoop (l_done lp) false (PBusy m)) (loops s)) (commits s ++ [m]) (log s) (sigd s))
+| S_busy l lp m a : nth_error (loops s) l = Some lp -> l_pc lp = PBusy m -> lock_held c s m = false ->
     Step c s (ALoop l a) (mkSt (queue s) (prod s) (ext s) (closed s) (cur s)
-                               (upd l (mkLoop (l_done lp) (l_reading lp) (PRun m (hp c m))) (loops s)) (commits s) (log s ++ [(m, l)]))
+                               (upd l (mkLoop (l_done lp) (l_reading lp) (PRun m (hp c m))) (loops s)) (commits s) (log s ++ [(m, l)]) (sigd s))
+| S_busy_lock l lp m a : nth_error (loops s) l = Some lp -> l_pc lp = PBusy m -> lock_held c s m = true ->
+    Step c s (ALoop l a)
+      (if lockfix c
+       then try_replace (mkSt (queue s) (prod s) (ext s) (closed s) (cur s)
+                              (upd l (mkLoop (l_done lp) (l_reading lp) (PLock m)) (loops s)) (commits s) (log s ++ [(m, l)]) (sigd s))
+       else mkSt (queue s) (prod s) (ext s) (closed s) (cur s)
+                 (upd l (mkLoop (l_done lp) (l_reading lp) (PLock m)) (loops s)) (commits s) (log s ++ [(m, l)]) (sigd s))
 | S_relock l lp m a : nth_error (loops s) l = Some lp -> l_pc lp = PRun m [] ->
     Step c s (ALoop l a) (with_loops s (upd l (mkLoop (l_done lp) true PCheck) (loops s)))
 | S_hreplace l lp m ops a : nth_error (loops s) l = Some lp -> l_pc lp = PRun m (HReplace :: ops) ->
     Step c s (ALoop l a) (try_replace (set_pc s l lp (PRun m ops)))
 | S_hnested l lp m r ops a : nth_error (loops s) l = Some lp -> l_pc lp = PRun m (HNested r :: ops) ->
     Step c s (ALoop l a) (try_replace (set_pc s l lp (PWait m r ops)))
+| S_hack l lp m r ops a : nth_error (loops s) l = Some lp -> l_pc lp = PRun m (HAck r :: ops) ->
+    Step c s (ALoop l a) (try_replace (set_pc s l lp (PWaitS m r ops)))
+| S_hping l lp m r ops a : nth_error (loops s) l = Some lp -> l_pc lp = PRun m (HPing r :: ops) ->
+    Step c s (ALoop l a) (if pingfix c then try_replace (set_pc s l lp (PWaitS m r ops)) else set_pc s l lp (PWaitS m r ops))
 | S_wait l lp m r ops a : nth_error (loops s) l = Some lp -> l_pc lp = PWait m r ops -> delivered r s = true ->
     Step c s (ALoop l a) (set_pc s l lp (PRun m ops))
+| S_waits l lp m r ops a : nth_error (loops s) l = Some lp -> l_pc lp = PWaitS m r ops -> signalled r s = true ->
+    Step c s (ALoop l a) (set_pc s l lp (PRun m ops))
+| S_lock_acq l lp m a : nth_error (loops s) l = Some lp -> l_pc lp = PLock m -> lock_held c s m = false ->
+    Step c s (ALoop l a) (set_pc s l lp (PRun m (hp c m)))
 | S_check l lp a : nth_error (loops s) l = Some lp -> l_pc lp = PCheck ->
     Step c s (ALoop l a) (set_pc s l lp (if fixed c && l_done lp then PExit else PSelect)).
 
 Lemma step_Step c s a s' : step c s a = Some s' -> Step c s a s'.
 Proof.
-  intro H. destruct a as [| | |l a]; cbn in H.
+  intro H. destruct a as [| | |r|l a]; cbn in H.
   - destruct (prod s) as [|m r] eqn:Ep; try discriminate.
+    unfold reader_free in H.
     destruct (length (queue s) <=? cap c)%nat eqn:El; try discriminate.
+    destruct (sigs_clear c s) eqn:Esc; try discriminate.
     injection H as <-. apply S_push; auto. now apply Nat.leb_le.
   - destruct (closed s) eqn:Ec; try discriminate. injection H as <-. now apply S_close.
   - destruct (ext s) as [|k] eqn:Ee; try discriminate. injection H as <-. now apply S_ext.
+  - destruct (sig_enabled c s r) eqn:Es; try discriminate. injection H as <-. now apply S_sig.
   - unfold step_loop in H.
     destruct (nth_error (loops s) l) as [lp|] eqn:En; try discriminate.
-    destruct (l_pc lp) as [ |m|m|m ops|m r ops| | ] eqn:Epc; try discriminate.
+    destruct (l_pc lp) as [ |m|m|m ops|m r ops|m r ops|m| | ] eqn:Epc; try discriminate.
     + destruct a.
       * destruct (l_done lp) eqn:Ed; try discriminate. injection H as <-. eapply S_sel_done; eauto.
       * destruct (queue s) as [|m q] eqn:Eq; try discriminate. injection H as <-.
-        change (mkSt q (prod s) (ext s) (closed s) (cur s) (loops s) (commits s) (log s)) with (st_q s q).
+        change (mkSt q (prod s) (ext s) (closed s) (cur s) (loops s) (commits s) (log s) (sigd s)) with (st_q s q).
         eapply S_sel_queue; eauto.
       * destruct (closed s) eqn:Ec; try discriminate. injection H as <-. eapply S_sel_conn; eauto.
     + injection H as <-. eapply S_deq; eauto.
-    + injection H as <-. eapply S_busy; eauto.
-    + destruct ops as [|[|r] ops]; injection H as <-.
+    + destruct (lock_held c s m) eqn:Elk; injection H as <-.
+      * eapply S_busy_lock; eauto.
+      * eapply S_busy; eauto.
+    + destruct ops as [|[|r|r|r] ops]; injection H as <-.
       * eapply S_relock; eauto.
       * eapply S_hreplace; eauto.
       * eapply S_hnested; eauto.
+      * eapply S_hack; eauto.
+      * eapply S_hping; eauto.
     + destruct (delivered r s) eqn:Ed; try discriminate. injection H as <-. eapply S_wait; eauto.
+    + destruct (signalled r s) eqn:Ed; try discriminate. injection H as <-. eapply S_waits; eauto.
+    + destruct (lock_held c s m) eqn:Elk; try discriminate. injection H as <-. eapply S_lock_acq; eauto.
     + injection H as <-. eapply S_check; eauto.
 Qed.
 
@@ -128,7 +154,7 @@ Lemma try_replace_cases s :
   exists lc, nth_error (loops s) (cur s) = Some lc /\ l_reading lc = false /\
     try_replace s = mkSt (queue s) (prod s) (ext s) (closed s) (length (loops s))
                          (upd (cur s) (mkLoop true false (l_pc lc)) (loops s) ++ [mkLoop false true PSelect])
-                         (commits s) (log s).
+                         (commits s) (log s) (sigd s).
 Proof.
   unfold try_replace. destruct (nth_error (loops s) (cur s)) as [lc|] eqn:E; auto.
   destruct (l_reading lc) eqn:Er; auto. right. exists lc. repeat split; auto.
@@ -142,12 +168,12 @@ Qed.
 
 Definition rd_ok (lp : loop) : bool :=
   match l_pc lp with
-  | PBusy _ | PRun _ _ | PWait _ _ _ => negb (l_reading lp)
+  | PBusy _ | PRun _ _ | PWait _ _ _ | PWaitS _ _ _ | PLock _ => negb (l_reading lp)
   | PSelect | PDeq _ | PCheck => l_reading lp
   | PExit => true
   end.
 Definition cur_ok (op : bool) (lp : loop) : bool :=
-  negb (l_done lp) && match l_pc lp with PWait _ _ _ => false | PExit => negb op | _ => true end.
+  negb (l_done lp) && match l_pc lp with PWait _ _ _ | PWaitS _ _ _ | PLock _ => false | PExit => negb op | _ => true end.
 Definition old_ok (fx : bool) (lp : loop) : bool :=
   l_done lp && (negb fx || match l_pc lp with PSelect | PDeq _ => false | _ => true end).
 Definition okl (fx iscur op : bool) (lp : loop) : bool :=
@@ -250,18 +276,35 @@ Ltac okl_fin c s l lp :=
   destruct (Nat.eqb l (cur s)), (l_done lp), (l_reading lp), (fixed c), (closed s);
   cbn in *; try reflexivity; try discriminate.
 
-Lemma Inv_step c s a s' : Inv c s -> step c s a = Some s' -> Inv c s'.
+Lemma Inv_step c s a s' : repaired_waits c = true -> Inv c s -> step c s a = Some s' -> Inv c s'.
 Proof.
-  intros HI HS. apply step_Step in HS.
-  destruct HS as [m r Hp Hl | Hc | k He | l lp Hn Hpc Hd | l lp Hn Hpc Hcl | l lp m q Hn Hpc Hq
-                 | l lp m a Hn Hpc | l lp m a Hn Hpc | l lp m a Hn Hpc | l lp m ops a Hn Hpc
-                 | l lp m r ops a Hn Hpc | l lp m r ops a Hn Hpc Hdl | l lp a Hn Hpc];
+  intros Hrw HI HS. apply andb_true_iff in Hrw as [Hpf Hlf]. apply step_Step in HS.
+  destruct HS as [m r Hp Hl Hsc | Hc | k He | r Hse | l lp Hn Hpc Hd | l lp Hn Hpc Hcl | l lp m q Hn Hpc Hq
+                 | l lp m a Hn Hpc | l lp m a Hn Hpc Hlk | l lp m a Hn Hpc Hlk | l lp m a Hn Hpc | l lp m ops a Hn Hpc
+                 | l lp m r ops a Hn Hpc | l lp m r ops a Hn Hpc | l lp m r ops a Hn Hpc
+                 | l lp m r ops a Hn Hpc Hdl | l lp m r ops a Hn Hpc Hdl | l lp m a Hn Hpc Hlk | l lp a Hn Hpc];
+    try rewrite Hpf; try rewrite Hlf;
     try (apply Inv_try_replace; unfold Inv in *; cbn; auto;
          eapply Iraw_upd; eauto; pose proof (proj2 HI _ _ Hn) as Ho; okl_fin c s l lp; fail);
     unfold Inv in *; cbn; auto;
     try (eapply Iraw_upd; eauto; pose proof (proj2 HI _ _ Hn) as Ho; okl_fin c s l lp; fail).
   - rewrite Hc in HI. now apply Iraw_close.
+  - (* the message-ID lock is taken: the loop is marked waiting, then TryToReplaceLoop runs *)
+    apply PreInv_try_replace. cbn. eapply PreInv_upd; eauto using Inv_PreInv.
+    pose proof (proj2 HI _ _ Hn) as Ho. okl_crush.
+    destruct (Nat.eqb l (cur s)), (l_done lp), (l_reading lp), (fixed c), (closed s);
+      cbn in *; try discriminate; repeat split; auto; try discriminate.
   - (* nested request: the handler's own loop is marked waiting, then TryToReplaceLoop runs *)
+    apply PreInv_try_replace. cbn. eapply PreInv_upd; eauto using Inv_PreInv.
+    pose proof (proj2 HI _ _ Hn) as Ho. okl_crush.
+    destruct (Nat.eqb l (cur s)), (l_done lp), (l_reading lp), (fixed c), (closed s);
+      cbn in *; try discriminate; repeat split; auto; try discriminate.
+  - (* confirmable nested request waiting for its acknowledgement: the same *)
+    apply PreInv_try_replace. cbn. eapply PreInv_upd; eauto using Inv_PreInv.
+    pose proof (proj2 HI _ _ Hn) as Ho. okl_crush.
+    destruct (Nat.eqb l (cur s)), (l_done lp), (l_reading lp), (fixed c), (closed s);
+      cbn in *; try discriminate; repeat split; auto; try discriminate.
+  - (* ping (repaired code): the same *)
     apply PreInv_try_replace. cbn. eapply PreInv_upd; eauto using Inv_PreInv.
     pose proof (proj2 HI _ _ Hn) as Ho. okl_crush.
     destruct (Nat.eqb l (cur s)), (l_done lp), (l_reading lp), (fixed c), (closed s);
@@ -321,12 +364,26 @@ Qed.
 Lemma GInv_step c msgs s a s' : GInv msgs s -> step c s a = Some s' -> GInv msgs s'.
 Proof.
   intros HG HS. apply step_Step in HS.
-  destruct HS as [m r Hp Hl | Hc | k He | l lp Hn Hpc Hd | l lp Hn Hpc Hcl | l lp m q Hn Hpc Hq
-                 | l lp m a Hn Hpc | l lp m a Hn Hpc | l lp m a Hn Hpc | l lp m ops a Hn Hpc
-                 | l lp m r ops a Hn Hpc | l lp m r ops a Hn Hpc Hdl | l lp a Hn Hpc];
-    try apply GInv_try_replace; unfold GInv, Graw in *; cbn;
+  assert (Hdisp : forall l lp m p, nth_error (loops s) l = Some lp -> l_pc lp = PBusy m -> held_of (mkLoop (l_done lp) (l_reading lp) p) = [] ->
+            Graw msgs (queue s) (prod s) (upd l (mkLoop (l_done lp) (l_reading lp) p) (loops s)) (log s ++ [(m, l)])).
+  { intros l lp m p Hn Hpc Hp. unfold GInv, Graw in *.
+    destruct (held_upd l lp (mkLoop (l_done lp) (l_reading lp) p) _ Hn) as (a0 & b & E & U).
+    rewrite U. rewrite E in HG. rewrite Hp. unfold held_of in HG. rewrite Hpc in HG. cbn in *. rewrite map_app. cbn.
+    eapply Permutation_trans; [exact HG|].
+    rewrite <- !app_assoc. apply Permutation_app_head. cbn.
+    apply Permutation_sym, Permutation_middle. }
+  destruct HS as [m r Hp Hl Hsc | Hc | k He | r Hse | l lp Hn Hpc Hd | l lp Hn Hpc Hcl | l lp m q Hn Hpc Hq
+                 | l lp m a Hn Hpc | l lp m a Hn Hpc Hlk | l lp m a Hn Hpc Hlk | l lp m a Hn Hpc | l lp m ops a Hn Hpc
+                 | l lp m r ops a Hn Hpc | l lp m r ops a Hn Hpc | l lp m r ops a Hn Hpc
+                 | l lp m r ops a Hn Hpc Hdl | l lp m r ops a Hn Hpc Hdl | l lp m a Hn Hpc Hlk | l lp a Hn Hpc];
+    try match goal with |- context [if pingfix c then _ else _] => destruct (pingfix c) end;
+    try match goal with |- context [if lockfix c then _ else _] => destruct (lockfix c) end;
+    try apply GInv_try_replace; unfold GInv in *; cbn;
+    try (apply Hdisp; auto; fail);
+    unfold Graw in *;
     try (erewrite held_upd_same; [exact HG | exact Hn | unfold held_of; cbn; rewrite Hpc; reflexivity]).
   - (* push *) rewrite Hp in HG. rewrite <- !app_assoc. cbn. exact HG.
+  - exact HG.
   - exact HG.
   - exact HG.
   - (* select: queue -> held *)
@@ -334,12 +391,6 @@ Proof.
     rewrite U. rewrite E in HG. unfold held_of in *. rewrite Hpc in HG. cbn in *.
     eapply Permutation_trans; [exact HG|].
     apply Permutation_app_head. rewrite <- !app_assoc. apply Permutation_app_head. cbn.
-    apply Permutation_sym, Permutation_middle.
-  - (* dispatch: held -> log *)
-    destruct (held_upd l lp (mkLoop (l_done lp) (l_reading lp) (PRun m (hp c m))) _ Hn) as (a0 & b & E & U).
-    rewrite U. rewrite E in HG. unfold held_of in *. rewrite Hpc in HG. cbn in *. rewrite map_app. cbn.
-    eapply Permutation_trans; [exact HG|].
-    rewrite <- !app_assoc. apply Permutation_app_head. cbn.
     apply Permutation_sym, Permutation_middle.
   - erewrite held_upd_same; [exact HG | exact Hn |].
     unfold held_of; cbn; rewrite Hpc. now destruct (fixed c && l_done lp).
@@ -356,8 +407,8 @@ Qed.
 Lemma GInv_init msgs k : GInv msgs (init msgs k).
 Proof. unfold GInv, Graw, held. cbn. apply Permutation_refl. Qed.
 
-Lemma Inv_run c msgs k sched s : run c (init msgs k) sched = Some s -> Inv c s.
-Proof. apply (run_invariant c (Inv c)); [apply Inv_step | apply Inv_init]. Qed.
+Lemma Inv_run c msgs k sched s : repaired_waits c = true -> run c (init msgs k) sched = Some s -> Inv c s.
+Proof. intro Hpf. apply (run_invariant c (Inv c)); [intros; eapply Inv_step; eauto | apply Inv_init]. Qed.
 
 Lemma GInv_run c msgs k sched s : run c (init msgs k) sched = Some s -> GInv msgs s.
 Proof. apply (run_invariant c (GInv msgs)); [apply GInv_step | apply GInv_init]. Qed.
@@ -379,9 +430,12 @@ Proof. unfold QInv. destruct (try_replace_fields s) as (-> & -> & _). auto. Qed.
 Lemma QInv_step c msgs s a s' : QInv msgs s -> step c s a = Some s' -> QInv msgs s'.
 Proof.
   intros (taken & HQ) HS. apply step_Step in HS.
-  destruct HS as [m r Hp Hl | Hc | k He | l lp Hn Hpc Hd | l lp Hn Hpc Hcl | l lp m q Hn Hpc Hq
-                 | l lp m a Hn Hpc | l lp m a Hn Hpc | l lp m a Hn Hpc | l lp m ops a Hn Hpc
-                 | l lp m r ops a Hn Hpc | l lp m r ops a Hn Hpc Hdl | l lp a Hn Hpc];
+  destruct HS as [m r Hp Hl Hsc | Hc | k He | r Hse | l lp Hn Hpc Hd | l lp Hn Hpc Hcl | l lp m q Hn Hpc Hq
+                 | l lp m a Hn Hpc | l lp m a Hn Hpc Hlk | l lp m a Hn Hpc Hlk | l lp m a Hn Hpc | l lp m ops a Hn Hpc
+                 | l lp m r ops a Hn Hpc | l lp m r ops a Hn Hpc | l lp m r ops a Hn Hpc
+                 | l lp m r ops a Hn Hpc Hdl | l lp m r ops a Hn Hpc Hdl | l lp m a Hn Hpc Hlk | l lp a Hn Hpc];
+    try match goal with |- context [if pingfix c then _ else _] => destruct (pingfix c) end;
+    try match goal with |- context [if lockfix c then _ else _] => destruct (lockfix c) end;
     try apply QInv_try_replace; unfold QInv; cbn; try (exists taken; exact HQ).
   - (* push: the head of [prod] becomes the tail of the queue *)
     exists taken. rewrite HQ, Hp, <- app_assoc. reflexivity.
@@ -428,18 +482,40 @@ Qed.
 (* ---- exactly once in complete runs with the connection open (both shapes) ---- *)
 Lemma terminal_pcs c s l lp :
   terminal c s -> nth_error (loops s) l = Some lp ->
-  l_pc lp = PSelect \/ (exists m r ops, l_pc lp = PWait m r ops) \/ l_pc lp = PExit.
+  l_pc lp = PSelect \/ (exists m r ops, l_pc lp = PWait m r ops) \/ (exists m r ops, l_pc lp = PWaitS m r ops) \/
+  (exists m, l_pc lp = PLock m) \/ l_pc lp = PExit.
 Proof.
   intros HT Hn. specialize (HT (ALoop l AltQueue) ltac:(discriminate)). cbn in HT. unfold step_loop in HT. rewrite Hn in HT.
-  destruct (l_pc lp) as [ |m|m|m ops|m r ops| | ] eqn:Epc; auto; try discriminate.
-  - destruct ops as [|[|r] ops]; discriminate.
+  destruct (l_pc lp) as [ |m|m|m ops|m r ops|m r ops|m| | ] eqn:Epc; auto; try discriminate.
+  - destruct (lock_held c s m); discriminate.
+  - destruct ops as [|[|r|r|r] ops]; discriminate.
   - right. left. eauto.
+  - right. right. left. eauto.
+  - right. right. right. left. eauto.
 Qed.
 
 Lemma held_nil ls : (forall lp, In lp ls -> held_of lp = []) -> held ls = [].
 Proof.
   induction ls as [|x r IH]; intro H; auto. rewrite held_cons. rewrite H by now left.
   cbn. apply IH. intros lp Hin. apply H. now right.
+Qed.
+
+(* the signals standing at the socket reader's position, when it is not parked, can be handled *)
+Lemma sigs_clear_or_enabled c s :
+  (length (queue s) <= cap c)%nat -> sigs_clear c s = false -> exists r, step c s (ASig r) <> None.
+Proof.
+  intros Hq Hc. unfold sigs_clear in Hc.
+  assert (He : exists e, In e (sigs c) /\ sig_here s e = true /\ signalled (fst e) s = false).
+  { induction (sigs c) as [|e r IH]; cbn in Hc; [discriminate|].
+    destruct (sig_here s e) eqn:E1; cbn in Hc.
+    - destruct (signalled (fst e) s) eqn:E2; cbn in Hc.
+      + destruct (IH Hc) as (e' & Hin & H1 & H2). exists e'. repeat split; auto. now right.
+      + exists e. repeat split; auto. now left.
+    - destruct (IH Hc) as (e' & Hin & H1 & H2). exists e'. repeat split; auto. now right. }
+  destruct He as (e & Hin & H1 & H2). exists (fst e). cbn. unfold sig_enabled, reader_free.
+  apply Nat.leb_le in Hq. rewrite Hq, H2. cbn.
+  replace (existsb (fun e0 => (fst e0 =? fst e) && sig_here s e0) (sigs c)) with true; [discriminate|].
+  symmetry. apply existsb_exists. exists e. split; auto. now rewrite Z.eqb_refl, H1.
 Qed.
 
 Lemma terminal_open_empty c s :
@@ -451,7 +527,7 @@ Proof.
   destruct (nth_error (loops s) (cur s)) as [lc|] eqn:En; [|apply nth_error_None in En; lia].
   pose proof (Hall _ _ En) as Ho. rewrite Nat.eqb_refl, Hop in Ho.
   assert (Hsel : l_pc lc = PSelect /\ l_done lc = false).
-  { destruct (terminal_pcs _ _ _ _ HT En) as [E|[(m & r & ops & E)|E]];
+  { destruct (terminal_pcs _ _ _ _ HT En) as [E|[(m & r & ops & E)|[(m & r & ops & E)|[(m & E)|E]]]];
       unfold okl, cur_ok in Ho; rewrite E in Ho; cbn in Ho;
       destruct (rd_ok lc), (l_done lc); cbn in Ho; try discriminate; auto. }
   destruct Hsel as [Hsel Hdone].
@@ -459,58 +535,260 @@ Proof.
   { pose proof (HT (ALoop (cur s) AltQueue) ltac:(discriminate)) as H. cbn in H. unfold step_loop in H. rewrite En, Hsel in H.
     destruct (queue s); auto; discriminate. }
   assert (Hp : prod s = []).
-  { pose proof (HT APush ltac:(discriminate)) as H. cbn in H. rewrite Hq in H. destruct (prod s); auto. cbn in H. discriminate. }
+  { pose proof (HT APush ltac:(discriminate)) as H. cbn in H. unfold reader_free in H. rewrite Hq in H.
+    destruct (prod s) as [|m r]; auto. cbn in H.
+    destruct (sigs_clear c s) eqn:Esc; [discriminate|].
+    destruct (sigs_clear_or_enabled c s) as (r0 & Hr0); auto; [rewrite Hq; cbn; lia|].
+    exfalso. apply Hr0. apply HT. discriminate. }
   repeat split; auto.
   - apply held_nil. intros lp Hin. apply In_nth_error in Hin as [l Hn].
-    destruct (terminal_pcs _ _ _ _ HT Hn) as [E|[(m & r & ops & E)|E]]; unfold held_of; now rewrite E.
+    destruct (terminal_pcs _ _ _ _ HT Hn) as [E|[(m & r & ops & E)|[(m & r & ops & E)|[(m & E)|E]]]]; unfold held_of; now rewrite E.
   - exists lc. auto.
 Qed.
 
 Theorem run_exactly_once c msgs k sched s :
+  repaired_waits c = true ->
   run c (init msgs k) sched = Some s -> terminal c s -> closed s = false ->
   Permutation msgs (map fst (log s)).
 Proof.
-  intros HR HT Hop. pose proof (GInv_run _ _ _ _ _ HR) as HG. pose proof (Inv_run _ _ _ _ _ HR) as HI.
+  intros Hpf HR HT Hop. pose proof (GInv_run _ _ _ _ _ HR) as HG. pose proof (Inv_run _ _ _ _ _ Hpf HR) as HI.
   destruct (terminal_open_empty _ _ HI HT Hop) as (Hq & Hp & Hh & _).
   unfold GInv, Graw in HG. rewrite Hq, Hp, Hh in HG. cbn in HG. now rewrite app_nil_r in HG.
 Qed.
 
-(* ---- never stalls: whatever the nesting depth (any number of loops blocked in nested requests), while
-   the connection is open there is a current loop that is none of the blocked ones, has not been told to
-   stop, has not exited, is not itself blocked, and is either at its select (ready for the next message)
-   or able to move ---- *)
+(* ---- never stalls: whatever the nesting depth (any number of loops blocked in nested requests, in the wait for an
+   acknowledgement or in a ping), while the connection is open there is a current loop that is none of the blocked
+   ones, has not been told to stop, has not exited, is not itself blocked, and is either at its select (ready for
+   the next message) or able to move ---- *)
+Definition blocked_pc (p : pc) : bool :=
+  match p with PWait _ _ _ | PWaitS _ _ _ | PLock _ => true | _ => false end.
+
 Theorem run_never_stalls c msgs k sched s :
+  repaired_waits c = true ->
   run c (init msgs k) sched = Some s -> closed s = false ->
   exists lc, nth_error (loops s) (cur s) = Some lc /\ l_done lc = false /\ l_pc lc <> PExit /\
-    (forall m r ops, l_pc lc <> PWait m r ops) /\
+    blocked_pc (l_pc lc) = false /\
     (l_pc lc = PSelect \/ exists s', step c s (ALoop (cur s) AltQueue) = Some s') /\
-    forall l lp m r ops, nth_error (loops s) l = Some lp -> l_pc lp = PWait m r ops -> l <> cur s.
+    forall l lp, nth_error (loops s) l = Some lp -> blocked_pc (l_pc lp) = true -> l <> cur s.
 Proof.
-  intros HR Hop. pose proof (Inv_run _ _ _ _ _ HR) as [Hc Hall].
+  intros Hpf HR Hop. pose proof (Inv_run _ _ _ _ _ Hpf HR) as [Hc Hall].
   destruct (nth_error (loops s) (cur s)) as [lc|] eqn:En; [|apply nth_error_None in En; lia].
   pose proof (Hall _ _ En) as Ho. rewrite Nat.eqb_refl, Hop in Ho.
   unfold okl, cur_ok in Ho. apply andb_true_iff in Ho as [_ Ho]. apply andb_true_iff in Ho as [Hd Hpc].
+  assert (Hnb : blocked_pc (l_pc lc) = false) by (destruct (l_pc lc); cbn in *; auto; discriminate).
   exists lc. split; auto. split; [now destruct (l_done lc)|].
   split; [intro E; rewrite E in Hpc; discriminate|].
-  split; [intros m r ops E; rewrite E in Hpc; discriminate|].
+  split; [exact Hnb|].
   split.
   - cbn. unfold step_loop. rewrite En.
-    destruct (l_pc lc) as [ |m|m|m ops|m r ops| | ] eqn:Epc; auto; try discriminate; right; eauto.
-    destruct ops as [|[|r] ops]; eauto.
-  - intros l lp m r ops Hn E ->. rewrite En in Hn. injection Hn as <-. rewrite E in Hpc. discriminate.
+    destruct (l_pc lc) as [ |m|m|m ops|m r ops|m r ops|m| | ] eqn:Epc; auto; try discriminate; right; eauto.
+    + destruct (lock_held c s m); eauto.
+    + destruct ops as [|[|r|r|r] ops]; eauto.
+  - intros l lp Hn E ->. rewrite En in Hn. injection Hn as <-. congruence.
+Qed.
+
+(* ---- Invariant D: a loop that is handling a message (or waits for its message-ID lock) has logged its dispatch ---- *)
+Definition dispatched_msg (lp : loop) : option Z :=
+  match l_pc lp with PRun m _ | PWait m _ _ | PWaitS m _ _ | PLock m => Some m | _ => None end.
+Definition Draw (ls : list loop) (lg : list (Z * nat)) : Prop :=
+  forall l lp m, nth_error ls l = Some lp -> dispatched_msg lp = Some m -> In (m, l) lg.
+Definition DInv (s : st) : Prop := Draw (loops s) (log s).
+
+Lemma Draw_upd ls lg lg' l lp x :
+  Draw ls lg -> nth_error ls l = Some lp -> incl lg lg' ->
+  (forall m, dispatched_msg x = Some m -> In (m, l) lg') -> Draw (upd l x ls) lg'.
+Proof.
+  intros HD Hn Hincl Hx i lq m Hi Hm. destruct (Nat.eq_dec l i) as [->|Hne].
+  - rewrite nth_error_upd_same in Hi by (eapply nth_error_lt; eauto). injection Hi as <-. auto.
+  - rewrite nth_error_upd_other in Hi by auto. apply Hincl. eapply HD; eauto.
+Qed.
+
+Lemma DInv_try_replace s : DInv s -> DInv (try_replace s).
+Proof.
+  intro HD. destruct (try_replace_cases s) as [->|(lc & Hn & Hr & ->)]; auto.
+  unfold DInv, Draw in *. cbn. intros l lp m Hi Hm.
+  destruct (Nat.lt_ge_cases l (length (loops s))) as [Hlt|Hge].
+  - rewrite nth_error_app1 in Hi by now rewrite length_upd.
+    destruct (Nat.eq_dec (cur s) l) as [<-|Hne].
+    + rewrite nth_error_upd_same in Hi by (eapply nth_error_lt; eauto). injection Hi as <-.
+      eapply HD; eauto.
+    + rewrite nth_error_upd_other in Hi by auto. eapply HD; eauto.
+  - rewrite nth_error_app2 in Hi by now rewrite length_upd. rewrite length_upd in Hi.
+    destruct (l - length (loops s))%nat as [|[|?]]; cbn in Hi; try discriminate. injection Hi as <-. discriminate.
+Qed.
+
+Lemma DInv_step c s a s' : DInv s -> step c s a = Some s' -> DInv s'.
+Proof.
+  intros HD HS. apply step_Step in HS.
+  destruct HS as [m r Hp Hl Hsc | Hc | k He | r Hse | l lp Hn Hpc Hd | l lp Hn Hpc Hcl | l lp m q Hn Hpc Hq
+                 | l lp m a Hn Hpc | l lp m a Hn Hpc Hlk | l lp m a Hn Hpc Hlk | l lp m a Hn Hpc | l lp m ops a Hn Hpc
+                 | l lp m r ops a Hn Hpc | l lp m r ops a Hn Hpc | l lp m r ops a Hn Hpc
+                 | l lp m r ops a Hn Hpc Hdl | l lp m r ops a Hn Hpc Hdl | l lp m a Hn Hpc Hlk | l lp a Hn Hpc];
+    try match goal with |- context [if pingfix c then _ else _] => destruct (pingfix c) end;
+    try match goal with |- context [if lockfix c then _ else _] => destruct (lockfix c) end;
+    try apply DInv_try_replace; try exact HD; unfold DInv in *; cbn;
+    try (eapply Draw_upd; eauto using incl_refl, incl_appl;
+         unfold dispatched_msg; cbn; intros m0 Hm0; try discriminate;
+         try (injection Hm0 as <-; first [ apply in_or_app; right; now left
+                                         | eapply HD; eauto; unfold dispatched_msg; now rewrite Hpc ]); fail).
+  - eapply Draw_upd; eauto using incl_refl. unfold dispatched_msg; cbn.
+    destruct (fixed c && l_done lp); cbn; discriminate.
+Qed.
+
+Lemma DInv_init msgs k : DInv (init msgs k).
+Proof. intros [|[|l]] lp m H; cbn in H; try discriminate. injection H as <-. discriminate. Qed.
+
+Lemma DInv_run c msgs k sched s : run c (init msgs k) sched = Some s -> DInv s.
+Proof. apply (run_invariant c DInv); [apply DInv_step | apply DInv_init]. Qed.
+
+Lemma NoDup_fst_inj {A} (lg : list (Z * A)) r a b :
+  NoDup (map fst lg) -> In (r, a) lg -> In (r, b) lg -> a = b.
+Proof.
+  induction lg as [|[x y] lg IH]; cbn; intros Hnd Ha Hb; [contradiction|].
+  inversion Hnd as [|? ? Hni Hnd']; subst.
+  destruct Ha as [Ha|Ha], Hb as [Hb|Hb].
+  - congruence.
+  - injection Ha as -> ->. exfalso. apply Hni. apply in_map_iff. exists (r, b). auto.
+  - injection Hb as -> ->. exfalso. apply Hni. apply in_map_iff. exists (r, a). auto.
+  - auto.
+Qed.
+
+(* the response [r] shares its message-ID lock with no other message: the peer does not give two different messages
+   the same message ID while one of them is being handled (RFC 7252 4.4), and a reply that carries a message ID of
+   our own numbering (ACK, RST) takes no lock in the repaired code *)
+Definition own_key (c : cfg) (r : Z) : Prop := forall m, m <> r -> key_eqb (key_of c m) (key_of c r) = false.
+
+(* in a complete run a message does not wait for a lock that only its own handling could hold *)
+Lemma not_locked_out c msgs k sched s r :
+  NoDup msgs -> run c (init msgs k) sched = Some s -> terminal c s -> own_key c r -> locked_out r s = false.
+Proof.
+  intros Hnd HR HT Hown. destruct (locked_out r s) eqn:E; auto. exfalso.
+  unfold locked_out in E. apply existsb_exists in E as (lp & Hin & Hlp).
+  destruct (l_pc lp) as [ | | | | | |m| | ] eqn:Epc; try discriminate. apply Z.eqb_eq in Hlp. subst m.
+  apply In_nth_error in Hin as [l Hn].
+  pose proof (HT (ALoop l AltQueue) ltac:(discriminate)) as H. cbn in H. unfold step_loop in H. rewrite Hn, Epc in H.
+  destruct (lock_held c s r) eqn:Elk; [|discriminate].
+  unfold lock_held in Elk. apply existsb_exists in Elk as (lp' & Hin' & Hk).
+  destruct (handling lp') as [m'|] eqn:Eh; [|discriminate].
+  destruct (Z.eq_dec m' r) as [->|Hne]; [|rewrite (Hown _ Hne) in Hk; discriminate].
+  apply In_nth_error in Hin' as [l' Hn'].
+  pose proof (DInv_run _ _ _ _ _ HR) as HD.
+  assert (H1 : In (r, l) (log s)) by (eapply HD; eauto; unfold dispatched_msg; now rewrite Epc).
+  assert (H2 : In (r, l') (log s)).
+  { eapply HD; eauto. unfold handling in Eh. unfold dispatched_msg. destruct (l_pc lp'); try discriminate; auto. }
+  destruct (run_at_most_once _ _ _ _ _ Hnd HR) as [Hnd2 _].
+  pose proof (NoDup_fst_inj _ _ _ _ Hnd2 H1 H2) as ->.
+  rewrite Hn in Hn'. injection Hn' as <-. unfold handling in Eh. rewrite Epc in Eh. discriminate.
 Qed.
 
 (* consequence for complete runs: every nested request whose response was among the pushed messages has returned *)
 Theorem nested_returns c msgs k sched s :
+  repaired_waits c = true -> NoDup msgs ->
   run c (init msgs k) sched = Some s -> terminal c s -> closed s = false ->
-  forall l lp m r ops, nth_error (loops s) l = Some lp -> l_pc lp = PWait m r ops -> ~ In r msgs.
+  forall l lp m r ops, nth_error (loops s) l = Some lp -> l_pc lp = PWait m r ops -> own_key c r -> ~ In r msgs.
 Proof.
-  intros HR HT Hop l lp m r ops Hn Hpc Hin.
-  pose proof (run_exactly_once _ _ _ _ _ HR HT Hop) as HP.
+  intros Hpf Hnd HR HT Hop l lp m r ops Hn Hpc Hown Hin.
+  pose proof (run_exactly_once _ _ _ _ _ Hpf HR HT Hop) as HP.
   assert (Hd : delivered r s = true).
-  { unfold delivered. apply existsb_exists. eapply Permutation_in in Hin; [|exact HP].
-    apply in_map_iff in Hin as (e & E & Hin). exists e. split; auto. rewrite E. apply Z.eqb_refl. }
+  { unfold delivered. apply andb_true_iff. split.
+    - apply existsb_exists. eapply Permutation_in in Hin; [|exact HP].
+      apply in_map_iff in Hin as (e & E & Hin). exists e. split; auto. rewrite E. apply Z.eqb_refl.
+    - apply negb_true_iff. eapply not_locked_out; eauto. }
   pose proof (HT (ALoop l AltQueue) ltac:(discriminate)) as H. cbn in H. unfold step_loop in H. rewrite Hn, Hpc, Hd in H. discriminate.
+Qed.
+
+(* a loop that is left waiting for a message-ID lock in a complete run waits for a handler that is itself blocked
+   waiting for a reply (which, in the repaired code and under the hypotheses of [nested_returns] /
+   [signal_waits_return], the peer never sent): a retransmitted copy waits exactly as long as the first copy's
+   handler does *)
+Theorem lock_waits_justified c s l lp m :
+  terminal c s -> nth_error (loops s) l = Some lp -> l_pc lp = PLock m ->
+  exists l' lp' m', nth_error (loops s) l' = Some lp' /\ handling lp' = Some m' /\
+    key_eqb (key_of c m') (key_of c m) = true /\
+    ((exists r ops, l_pc lp' = PWait m' r ops) \/ (exists r ops, l_pc lp' = PWaitS m' r ops)).
+Proof.
+  intros HT Hn Hpc.
+  pose proof (HT (ALoop l AltQueue) ltac:(discriminate)) as H. cbn in H. unfold step_loop in H. rewrite Hn, Hpc in H.
+  destruct (lock_held c s m) eqn:Elk; [|discriminate].
+  unfold lock_held in Elk. apply existsb_exists in Elk as (lp' & Hin' & Hk).
+  destruct (handling lp') as [m'|] eqn:Eh; [|discriminate].
+  apply In_nth_error in Hin' as [l' Hn'].
+  exists l', lp', m'. repeat split; auto.
+  destruct (terminal_pcs _ _ _ _ HT Hn') as [E|[(m0 & r & ops & E)|[(m0 & r & ops & E)|[(m0 & E)|E]]]];
+    unfold handling in Eh; rewrite E in Eh; try discriminate; injection Eh as ->; eauto.
+Qed.
+
+(* ---- signals.  Invariant S: the socket reader does not pass a signal without running its handler ---- *)
+Definition sigs_wf (c : cfg) (msgs : list Z) : Prop := forall r q, In (r, q) (sigs c) -> (q <= length msgs)%nat.
+Definition SInv (c : cfg) (s : st) : Prop :=
+  forall r q, In (r, q) (sigs c) -> (length (prod s) < q)%nat -> signalled r s = true.
+
+Lemma signalled_app r s x :
+  signalled r s = true ->
+  signalled r (mkSt (queue s) (prod s) (ext s) (closed s) (cur s) (loops s) (commits s) (log s) (sigd s ++ [x])) = true.
+Proof. unfold signalled, memz. cbn. rewrite existsb_app. intros ->. reflexivity. Qed.
+
+Lemma try_replace_sigd s : sigd (try_replace s) = sigd s.
+Proof. destruct (try_replace_cases s) as [->|(lc & Hn & Hr & ->)]; cbn; auto. Qed.
+
+Lemma SInv_try_replace c s : SInv c s -> SInv c (try_replace s).
+Proof.
+  unfold SInv, signalled. destruct (try_replace_fields s) as (_ & -> & _). now rewrite try_replace_sigd.
+Qed.
+
+Lemma SInv_step c s a s' : SInv c s -> step c s a = Some s' -> SInv c s'.
+Proof.
+  intros HS0 HS. apply step_Step in HS.
+  destruct HS as [m r Hp Hl Hsc | Hc | k He | r Hse | l lp Hn Hpc Hd | l lp Hn Hpc Hcl | l lp m q Hn Hpc Hq
+                 | l lp m a Hn Hpc | l lp m a Hn Hpc Hlk | l lp m a Hn Hpc Hlk | l lp m a Hn Hpc | l lp m ops a Hn Hpc
+                 | l lp m r ops a Hn Hpc | l lp m r ops a Hn Hpc | l lp m r ops a Hn Hpc
+                 | l lp m r ops a Hn Hpc Hdl | l lp m r ops a Hn Hpc Hdl | l lp m a Hn Hpc Hlk | l lp a Hn Hpc];
+    try match goal with |- context [if pingfix c then _ else _] => destruct (pingfix c) end;
+    try match goal with |- context [if lockfix c then _ else _] => destruct (lockfix c) end;
+    try apply SInv_try_replace; try exact HS0.
+  - (* push: the reader leaves its position, where every signal has been handled *)
+    intros r0 q Hin Hlt. cbn in Hlt. unfold signalled. cbn.
+    destruct (Nat.eq_dec q (length (prod s))) as [->|Hne].
+    + unfold sigs_clear in Hsc. rewrite forallb_forall in Hsc. specialize (Hsc _ Hin).
+      unfold sig_here in Hsc. cbn [fst snd] in Hsc. rewrite Nat.eqb_refl in Hsc. exact Hsc.
+    + apply (HS0 r0 q Hin). rewrite Hp in *. cbn in *. lia.
+  - (* a signal handler has run *)
+    intros r0 q Hin Hlt. apply signalled_app. apply (HS0 r0 q Hin Hlt).
+Qed.
+
+Lemma SInv_init c msgs k : sigs_wf c msgs -> SInv c (init msgs k).
+Proof. intros Hwf r q Hin Hlt. cbn in Hlt. specialize (Hwf _ _ Hin). lia. Qed.
+
+Lemma SInv_run c msgs k sched s : sigs_wf c msgs -> run c (init msgs k) sched = Some s -> SInv c s.
+Proof. intro Hwf. apply (run_invariant c (SInv c)); [apply SInv_step | now apply SInv_init]. Qed.
+
+(* complete run, connection open: the socket reader has run the handler of every signal the peer sent, and no
+   handler is left waiting for one: a confirmable nested request has been acknowledged, a ping has returned *)
+Theorem signals_handled c msgs k sched s :
+  repaired_waits c = true -> sigs_wf c msgs ->
+  run c (init msgs k) sched = Some s -> terminal c s -> closed s = false ->
+  forall r q, In (r, q) (sigs c) -> signalled r s = true.
+Proof.
+  intros Hpf Hwf HR HT Hop r q Hin.
+  pose proof (Inv_run _ _ _ _ _ Hpf HR) as HI. pose proof (SInv_run _ _ _ _ _ Hwf HR) as HS.
+  destruct (terminal_open_empty _ _ HI HT Hop) as (Hq & Hp & _).
+  destruct q as [|q].
+  - destruct (signalled r s) eqn:E; auto. exfalso.
+    pose proof (HT (ASig r) ltac:(discriminate)) as H. cbn in H. unfold sig_enabled, reader_free in H.
+    rewrite Hq, E in H. cbn in H.
+    replace (existsb (fun e => (fst e =? r) && sig_here s e) (sigs c)) with true in H; [discriminate|].
+    symmetry. apply existsb_exists. exists (r, O). split; auto. unfold sig_here. cbn. now rewrite Z.eqb_refl, Hp.
+  - apply (HS r (S q) Hin). rewrite Hp. cbn. lia.
+Qed.
+
+Theorem signal_waits_return c msgs k sched s :
+  repaired_waits c = true -> sigs_wf c msgs ->
+  run c (init msgs k) sched = Some s -> terminal c s -> closed s = false ->
+  forall l lp m r ops, nth_error (loops s) l = Some lp -> l_pc lp = PWaitS m r ops -> forall q, ~ In (r, q) (sigs c).
+Proof.
+  intros Hpf Hwf HR HT Hop l lp m r ops Hn Hpc q Hin.
+  pose proof (signals_handled _ _ _ _ _ Hpf Hwf HR HT Hop _ _ Hin) as Hs.
+  pose proof (HT (ALoop l AltQueue) ltac:(discriminate)) as H. cbn in H. unfold step_loop in H. rewrite Hn, Hpc, Hs in H. discriminate.
 Qed.
 
 (* ------------------------------------------------------------------ *)
@@ -579,12 +857,14 @@ Lemma OInv_step c msgs s a s' :
   fixed c = true -> Inv c s -> OInv msgs s -> step c s a = Some s' -> OInv msgs s'.
 Proof.
   intros Hf HI HO HS. pose proof (Inv_cur_rd_ok _ _ HI) as Hrd. apply step_Step in HS.
-  destruct HS as [m r Hp Hl | Hc | k He | l lp Hn Hpc Hd | l lp Hn Hpc Hcl | l lp m q Hn Hpc Hq
-                 | l lp m a Hn Hpc | l lp m a Hn Hpc | l lp m a Hn Hpc | l lp m ops a Hn Hpc
-                 | l lp m r ops a Hn Hpc | l lp m r ops a Hn Hpc Hdl | l lp a Hn Hpc].
+  destruct HS as [m r Hp Hl Hsc | Hc | k He | r Hse | l lp Hn Hpc Hd | l lp Hn Hpc Hcl | l lp m q Hn Hpc Hq
+                 | l lp m a Hn Hpc | l lp m a Hn Hpc Hlk | l lp m a Hn Hpc Hlk | l lp m a Hn Hpc | l lp m ops a Hn Hpc
+                 | l lp m r ops a Hn Hpc | l lp m r ops a Hn Hpc | l lp m r ops a Hn Hpc
+                 | l lp m r ops a Hn Hpc Hdl | l lp m r ops a Hn Hpc Hdl | l lp m a Hn Hpc Hlk | l lp a Hn Hpc].
   - unfold OInv in *. cbn. rewrite Hp in HO. rewrite <- !app_assoc. exact HO.
   - exact HO.
   - apply OInv_try_replace; auto.
+  - exact HO.
   - unfold OInv in *. cbn. rewrite (nth_upd_cur dheld _ _ lp); auto. cbn. now rewrite Hpc.
   - unfold OInv in *. cbn. rewrite (nth_upd_cur dheld _ _ lp); auto. cbn. now rewrite Hpc.
   - assert (l = cur s) by (eapply fixed_consumer; eauto). subst l.
@@ -594,6 +874,14 @@ Proof.
     unfold OInv in *. cbn. rewrite nth_error_upd_same by (eapply nth_error_lt; eauto).
     rewrite Hn in HO. cbn in *. rewrite Hpc in HO. rewrite <- !app_assoc. exact HO.
   - unfold OInv in *. cbn. rewrite (nth_upd_cur dheld _ _ lp); auto. cbn. now rewrite Hpc.
+  - (* dispatch finds the message-ID lock taken *)
+    match goal with |- OInv msgs (if lockfix c then try_replace ?X else ?X) => assert (HO' : OInv msgs X) end.
+    { unfold OInv in *. cbn. rewrite (nth_upd_cur dheld _ _ lp); auto. cbn. now rewrite Hpc. }
+    destruct (lockfix c); auto. apply OInv_try_replace; auto.
+    intro lc. cbn. destruct (Nat.eq_dec l (cur s)) as [->|Hne].
+    + rewrite nth_error_upd_same by (eapply nth_error_lt; eauto). intro E. injection E as <-.
+      specialize (Hrd _ Hn). unfold rd_ok in *. cbn. now rewrite Hpc in Hrd.
+    + rewrite nth_error_upd_other by auto. apply Hrd.
   - unfold OInv in *. cbn. rewrite (nth_upd_cur dheld _ _ lp); auto. cbn. now rewrite Hpc.
   - apply OInv_try_replace.
     + apply cur_rd_ok_set_pc; auto. unfold rd_ok; cbn. now rewrite Hpc.
@@ -601,6 +889,16 @@ Proof.
   - apply OInv_try_replace.
     + apply cur_rd_ok_set_pc; auto. unfold rd_ok; cbn. now rewrite Hpc.
     + unfold OInv in *. cbn. rewrite (nth_upd_cur dheld _ _ lp); auto. cbn. now rewrite Hpc.
+  - apply OInv_try_replace.
+    + apply cur_rd_ok_set_pc; auto. unfold rd_ok; cbn. now rewrite Hpc.
+    + unfold OInv in *. cbn. rewrite (nth_upd_cur dheld _ _ lp); auto. cbn. now rewrite Hpc.
+  - destruct (pingfix c).
+    + apply OInv_try_replace.
+      * apply cur_rd_ok_set_pc; auto. unfold rd_ok; cbn. now rewrite Hpc.
+      * unfold OInv in *. cbn. rewrite (nth_upd_cur dheld _ _ lp); auto. cbn. now rewrite Hpc.
+    + unfold OInv in *. cbn. rewrite (nth_upd_cur dheld _ _ lp); auto. cbn. now rewrite Hpc.
+  - unfold OInv in *. cbn. rewrite (nth_upd_cur dheld _ _ lp); auto. cbn. now rewrite Hpc.
+  - unfold OInv in *. cbn. rewrite (nth_upd_cur dheld _ _ lp); auto. cbn. now rewrite Hpc.
   - unfold OInv in *. cbn. rewrite (nth_upd_cur dheld _ _ lp); auto. cbn. now rewrite Hpc.
   - unfold OInv in *. cbn. rewrite (nth_upd_cur dheld _ _ lp); auto. cbn. rewrite Hpc.
     now destruct (fixed c && l_done lp).
@@ -610,17 +908,17 @@ Lemma OInv_init msgs k : OInv msgs (init msgs k).
 Proof. reflexivity. Qed.
 
 Lemma InvO_run c msgs k sched s :
-  fixed c = true -> run c (init msgs k) sched = Some s -> Inv c s /\ OInv msgs s.
+  fixed c = true -> repaired_waits c = true -> run c (init msgs k) sched = Some s -> Inv c s /\ OInv msgs s.
 Proof.
-  intro Hf. apply (run_invariant c (fun s => Inv c s /\ OInv msgs s)).
+  intros Hf Hpf. apply (run_invariant c (fun s => Inv c s /\ OInv msgs s)).
   - intros s0 a s' [HI HO] HS. split; [eapply Inv_step; eauto | eapply OInv_step; eauto].
   - split; [apply Inv_init | apply OInv_init].
 Qed.
 
 (* the order in which messages are committed to their handlers (MarkBusy) is the arrival order: all schedules *)
 Theorem commit_in_order c msgs k sched s :
-  fixed c = true -> run c (init msgs k) sched = Some s -> exists rest, msgs = commits s ++ rest.
-Proof. intros Hf HR. destruct (InvO_run _ _ _ _ _ Hf HR) as [_ HO]. eexists. exact HO. Qed.
+  fixed c = true -> repaired_waits c = true -> run c (init msgs k) sched = Some s -> exists rest, msgs = commits s ++ rest.
+Proof. intros Hf Hpf HR. destruct (InvO_run _ _ _ _ _ Hf Hpf HR) as [_ HO]. eexists. exact HO. Qed.
 
 (* ---- dispatch order ---- *)
 
@@ -662,7 +960,7 @@ Qed.
 Lemma BInv_upd s l lp x cm lg :
   BInv s -> nth_error (loops s) l = Some lp -> bheld (Some x) = [] ->
   cm = map fst lg ++ (if Nat.eqb l (cur s) then [] else bheld (nth_error (loops s) (cur s))) ->
-  BInv (mkSt (queue s) (prod s) (ext s) (closed s) (cur s) (upd l x (loops s)) cm lg).
+  BInv (mkSt (queue s) (prod s) (ext s) (closed s) (cur s) (upd l x (loops s)) cm lg (sigd s)).
 Proof.
   intros [HB1 HB2] Hn Hx Hcm. split; cbn.
   - destruct (Nat.eqb l (cur s)) eqn:E.
@@ -698,12 +996,14 @@ Lemma BInv_step c s a s' :
   fixed c = true -> Inv c s -> BInv s -> calm_step s a = true -> step c s a = Some s' -> BInv s'.
 Proof.
   intros Hf HI HB HQ HS. apply step_Step in HS. unfold calm_step in HQ.
-  destruct HS as [m r Hp Hl | Hc | k He | l lp Hn Hpc Hd | l lp Hn Hpc Hcl | l lp m q Hn Hpc Hq
-                 | l lp m a Hn Hpc | l lp m a Hn Hpc | l lp m a Hn Hpc | l lp m ops a Hn Hpc
-                 | l lp m r ops a Hn Hpc | l lp m r ops a Hn Hpc Hdl | l lp a Hn Hpc].
+  destruct HS as [m r Hp Hl Hsc | Hc | k He | r Hse | l lp Hn Hpc Hd | l lp Hn Hpc Hcl | l lp m q Hn Hpc Hq
+                 | l lp m a Hn Hpc | l lp m a Hn Hpc Hlk | l lp m a Hn Hpc Hlk | l lp m a Hn Hpc | l lp m ops a Hn Hpc
+                 | l lp m r ops a Hn Hpc | l lp m r ops a Hn Hpc | l lp m r ops a Hn Hpc
+                 | l lp m r ops a Hn Hpc Hdl | l lp m r ops a Hn Hpc Hdl | l lp m a Hn Hpc Hlk | l lp a Hn Hpc].
   - exact HB.
   - exact HB.
   - cbn in HQ. apply BInv_try_replace; [|exact HB]. unfold cur_in_window in *. cbn. now destruct (bheld _).
+  - exact HB.
   - apply BInv_set_pc; auto; [cbn; now rewrite Hpc | discriminate].
   - apply BInv_set_pc; auto; [cbn; now rewrite Hpc | discriminate].
   - apply (BInv_set_pc (st_q s q)); auto; [cbn; now rewrite Hpc | discriminate].
@@ -721,6 +1021,18 @@ Proof.
     + rewrite nth_error_upd_same by (eapply nth_error_lt; eauto). cbn.
       rewrite HB1, Hn. cbn. rewrite Hpc. rewrite map_app. cbn. now rewrite app_nil_r.
     + intros i lq Hi Hne. rewrite nth_error_upd_other in Hi by auto. eauto.
+  - (* dispatch finds the message-ID lock taken *)
+    destruct HB as [HB1 HB2].
+    assert (l = cur s).
+    { destruct (Nat.eq_dec l (cur s)); auto. specialize (HB2 _ _ Hn n). cbn in HB2. rewrite Hpc in HB2. discriminate. }
+    subst l.
+    match goal with |- BInv (if lockfix c then try_replace ?X else ?X) => assert (HX : BInv X) end.
+    { split; cbn.
+      + rewrite nth_error_upd_same by (eapply nth_error_lt; eauto). cbn.
+        rewrite HB1, Hn. cbn. rewrite Hpc. rewrite map_app. cbn. now rewrite app_nil_r.
+      + intros i lq Hi Hne. rewrite nth_error_upd_other in Hi by auto. eauto. }
+    destruct (lockfix c); auto. apply BInv_try_replace; auto.
+    unfold cur_in_window. cbn. rewrite nth_error_upd_same by (eapply nth_error_lt; eauto). reflexivity.
   - eapply BInv_upd; eauto. destruct HB as [HB1 _]. rewrite HB1. f_equal.
     destruct (Nat.eqb l (cur s)) eqn:E; auto. apply Nat.eqb_eq in E. subst l. rewrite Hn. cbn. now rewrite Hpc.
   - cbn in HQ. rewrite Hn, Hpc in HQ. cbn in HQ. apply negb_true_iff in HQ.
@@ -731,6 +1043,18 @@ Proof.
     apply BInv_try_replace.
     + apply window_set_pc; auto. discriminate.
     + apply BInv_set_pc; auto; [cbn; now rewrite Hpc | discriminate].
+  - cbn in HQ. rewrite Hn, Hpc in HQ. cbn in HQ. apply negb_true_iff in HQ.
+    apply BInv_try_replace.
+    + apply window_set_pc; auto. discriminate.
+    + apply BInv_set_pc; auto; [cbn; now rewrite Hpc | discriminate].
+  - cbn in HQ. rewrite Hn, Hpc in HQ. cbn in HQ. apply negb_true_iff in HQ.
+    destruct (pingfix c).
+    + apply BInv_try_replace.
+      * apply window_set_pc; auto. discriminate.
+      * apply BInv_set_pc; auto; [cbn; now rewrite Hpc | discriminate].
+    + apply BInv_set_pc; auto; [cbn; now rewrite Hpc | discriminate].
+  - apply BInv_set_pc; auto; [cbn; now rewrite Hpc | discriminate].
+  - apply BInv_set_pc; auto; [cbn; now rewrite Hpc | discriminate].
   - apply BInv_set_pc; auto; [cbn; now rewrite Hpc | discriminate].
   - apply BInv_set_pc; auto; [cbn; now rewrite Hpc | destruct (fixed c && l_done lp); discriminate].
 Qed.
@@ -741,10 +1065,10 @@ Proof. split; cbn; auto. intros [|[|i]] lp H Hne; cbn in *; try discriminate. co
 (* in the repaired code, when no replacement request races with the hand-over of a message to its handler,
    messages are dispatched in arrival order: every schedule, every handler program (blocking or not) *)
 Theorem run_in_order c msgs k sched s :
-  fixed c = true -> run c (init msgs k) sched = Some s -> calm c (init msgs k) sched = true ->
+  fixed c = true -> repaired_waits c = true -> run c (init msgs k) sched = Some s -> calm c (init msgs k) sched = true ->
   exists rest, msgs = map fst (log s) ++ rest.
 Proof.
-  intros Hf HR HC.
+  intros Hf Hpf HR HC.
   assert (H : (Inv c s /\ OInv msgs s) /\ BInv s).
   { apply (run_invariant_cond c calm_step (fun s => (Inv c s /\ OInv msgs s) /\ BInv s)) with (sched := sched) (s := init msgs k); auto.
     - intros s0 a s' [[HI HO] HB] HQ HS. split; [split|].
@@ -757,18 +1081,18 @@ Qed.
 
 (* complete run, connection open: the dispatch log IS the arrival sequence *)
 Theorem run_in_order_complete c msgs k sched s :
-  fixed c = true -> run c (init msgs k) sched = Some s -> calm c (init msgs k) sched = true ->
+  fixed c = true -> repaired_waits c = true -> run c (init msgs k) sched = Some s -> calm c (init msgs k) sched = true ->
   terminal c s -> closed s = false -> map fst (log s) = msgs.
 Proof.
-  intros Hf HR HC HT Hop. destruct (run_in_order _ _ _ _ _ Hf HR HC) as [rest E].
-  pose proof (run_exactly_once _ _ _ _ _ HR HT Hop) as HP.
+  intros Hf Hpf HR HC HT Hop. destruct (run_in_order _ _ _ _ _ Hf Hpf HR HC) as [rest E].
+  pose proof (run_exactly_once _ _ _ _ _ Hpf HR HT Hop) as HP.
   apply Permutation_length in HP. rewrite E in HP at 1. rewrite app_length in HP.
   destruct rest; [now rewrite app_nil_r in E|]. cbn in HP. lia.
 Qed.
 
 (* ---- the code before the repair (F14): arrival order is NOT preserved, although no handler blocks and
    the only replacement request comes from the handler of the current loop itself (so the run is calm) ---- *)
-Definition f14_cfg : cfg := mkCfg 1 false [(1, [HReplace])].
+Definition f14_cfg : cfg := mkCfg 1 false true true true [(1, [HReplace])] [] [].
 Definition f14_sched : list act :=
   let L0 := ALoop 0 AltQueue in let L1 := ALoop 1 AltQueue in
   [APush; L0; L0; L0; L0;      (* loop 0 dispatches message 1, whose handler calls TryToReplaceLoop: loop 1 is started *)
@@ -796,7 +1120,7 @@ Qed.
 
 (* and the same schedule cannot even be run in the repaired code: after its re-lock the replaced loop exits *)
 Lemma f14_sched_fixed_exits :
-  run (mkCfg 1 true [(1, [HReplace])]) (init [1; 2; 3] 0) f14_sched = None.
+  run (mkCfg 1 true true true true [(1, [HReplace])] [] []) (init [1; 2; 3] 0) f14_sched = None.
 Proof. vm_compute. reflexivity. Qed.
 
 (* ------------------------------------------------------------------ *)
@@ -804,9 +1128,11 @@ Proof. vm_compute. reflexivity. Qed.
 
 Definition waiting_list (s : st) : list (Z * Z * bool) :=
   flat_map (fun lp => match l_pc lp with PWait m r _ => [(m, r, false)] | _ => [] end) (loops s).
+Definition sigwaiting_list (s : st) : list (Z * Z * bool) :=
+  flat_map (fun lp => match l_pc lp with PWaitS m r _ => [(m, r, false)] | _ => [] end) (loops s).
 
 Definition obs_of (msgs : list Z) (s : st) (nb : bool) : obs :=
-  mkObs msgs (map fst (log s)) (negb (closed s)) true nb (waiting_list s).
+  mkObs msgs (map fst (log s)) (negb (closed s)) true nb (waiting_list s) (sigd s) (sigwaiting_list s).
 
 Lemma count_notin m l : ~ In m l -> count m l = O.
 Proof.
@@ -832,30 +1158,154 @@ Lemma subseq_prefix a b : subseq a (a ++ b) = true.
 Proof. induction a as [|x a IH]; cbn; [now destruct b|]. now rewrite Z.eqb_refl. Qed.
 
 Theorem model_satisfies_spec c msgs k sched s nb :
-  fixed c = true -> NoDup msgs ->
+  fixed c = true -> repaired_waits c = true -> NoDup msgs ->
+  (forall r, In r msgs -> own_key c r) ->
   run c (init msgs k) sched = Some s -> terminal c s -> closed s = false ->
   (nb = true -> calm c (init msgs k) sched = true) ->
   holds (obs_of msgs s nb) = true.
 Proof.
-  intros Hf Hnd HR HT Hop Hnb.
+  intros Hf Hpf Hnd Hown HR HT Hop Hnb.
   destruct (run_at_most_once _ _ _ _ _ Hnd HR) as [Hnd2 Hincl].
-  pose proof (run_exactly_once _ _ _ _ _ HR HT Hop) as HP.
+  pose proof (run_exactly_once _ _ _ _ _ Hpf HR HT Hop) as HP.
   unfold holds. repeat (apply andb_true_iff; split).
   - unfold at_most_once. cbn. apply forallb_forall. intros m _. apply Nat.leb_le. now apply NoDup_count.
   - unfold only_accepted. cbn. apply forallb_forall. intros m Hm. apply mem_In. now apply Hincl.
   - unfold none_dropped. cbn. rewrite Hop. cbn. apply forallb_forall. intros m Hm. apply mem_In.
     eapply Permutation_in; eauto.
   - unfold in_order. cbn. destruct nb; auto. cbn.
-    destruct (run_in_order _ _ _ _ _ Hf HR (Hnb eq_refl)) as [rest E]. rewrite E. apply subseq_prefix.
-  - unfold never_stalls. cbn. rewrite Hop. cbn. apply forallb_forall. intros [[m r] ret] Hin.
-    unfold waiting_list in Hin. apply in_flat_map in Hin as (lp & Hlp & Hin).
-    destruct (l_pc lp) as [ | | | |m' r' ops| | ] eqn:Epc; cbn in Hin; try contradiction.
-    destruct Hin as [Hin|[]]. injection Hin as -> -> <-.
-    apply In_nth_error in Hlp as [l Hn].
-    apply orb_true_iff. left. apply negb_true_iff.
-    destruct (mem r msgs) eqn:Em; auto. apply mem_In in Em.
-    exfalso. eapply nested_returns; eauto.
+    destruct (run_in_order _ _ _ _ _ Hf Hpf HR (Hnb eq_refl)) as [rest E]. rewrite E. apply subseq_prefix.
+  - unfold never_stalls. cbn. rewrite Hop. cbn. apply andb_true_iff. split.
+    + apply forallb_forall. intros [[m r] ret] Hin.
+      unfold waiting_list in Hin. apply in_flat_map in Hin as (lp & Hlp & Hin).
+      destruct (l_pc lp) as [ | | | |m' r' ops| | | | ] eqn:Epc; cbn in Hin; try contradiction.
+      destruct Hin as [Hin|[]]. injection Hin as -> -> <-.
+      apply In_nth_error in Hlp as [l Hn].
+      apply orb_true_iff. left. apply negb_true_iff.
+      destruct (mem r msgs) eqn:Em; auto. apply mem_In in Em.
+      exfalso. eapply (nested_returns c msgs k sched s); eauto.
+    + (* a handler waiting for a signal that the socket reader has handled can move: not a complete run *)
+      apply forallb_forall. intros [[m r] ret] Hin.
+      unfold sigwaiting_list in Hin. apply in_flat_map in Hin as (lp & Hlp & Hin).
+      destruct (l_pc lp) as [ | | | | |m' r' ops| | | ] eqn:Epc; cbn in Hin; try contradiction.
+      destruct Hin as [Hin|[]]. injection Hin as -> -> <-.
+      apply In_nth_error in Hlp as [l Hn].
+      apply orb_true_iff. left. apply negb_true_iff.
+      destruct (mem r (sigd s)) eqn:Em; auto. exfalso.
+      pose proof (HT (ALoop l AltQueue) ltac:(discriminate)) as H. cbn in H. unfold step_loop in H.
+      rewrite Hn, Epc in H. unfold signalled, memz in H. unfold mem in Em. rewrite Em in H. discriminate.
 Qed.
+
+(* ---- the code before the repair of Ping (AsyncPing did not call TryToReplaceLoop): a handler that pings the peer
+   leaves the queue without a consumer; with a rendezvous queue the socket reader parks on the next message and
+   never reads the pong: nothing can move, message 2 is never dispatched and the ping never returns ---- *)
+Definition ping_old_cfg : cfg := mkCfg 0 true false true true [(1, [HPing 9])] [(9, 0%nat)] [].
+Definition ping_old_sched : list act :=
+  let L0 := ALoop 0 AltQueue in
+  [APush; L0; L0; L0;          (* message 1 is dispatched to its handler *)
+   L0;                         (* which calls Ping and waits for the pong (signal 9, sent by the peer after message 2) *)
+   APush].                     (* the socket reader offers message 2 to the queue: nobody receives *)
+
+Theorem ping_stalls_refuted :
+  exists c msgs k sched s,
+    fixed c = true /\ pingfix c = false /\ sigs_wf c msgs /\ NoDup msgs /\
+    run c (init msgs k) sched = Some s /\ quiescent c s = true /\ closed s = false /\
+    msgs = [1; 2] /\ map fst (log s) = [1] /\ queue s = [2] /\ prod s = [] /\
+    (exists lp, nth_error (loops s) 0 = Some lp /\ l_pc lp = PWaitS 1 9 []) /\
+    In (9, 0%nat) (sigs c) /\ signalled 9 s = false /\
+    none_dropped (obs_of msgs s false) = false.
+Proof.
+  exists ping_old_cfg, [1; 2], 0%nat, ping_old_sched.
+  eexists. split; [reflexivity|]. split; [reflexivity|].
+  split. { intros r q [H|[]]. injection H as <- <-. cbn. lia. }
+  split; [repeat constructor; cbn; intuition lia|].
+  split; [vm_compute; reflexivity|].
+  split; [vm_compute; reflexivity|]. split; [reflexivity|]. split; [reflexivity|].
+  split; [reflexivity|]. split; [reflexivity|]. split; [reflexivity|].
+  split; [eexists; split; reflexivity|].
+  split; [now left|]. split; reflexivity.
+Qed.
+
+(* the same configuration in the repaired code: every complete run dispatches both messages and the ping returns
+   ([run_exactly_once], [signals_handled]); the deterministic scheduler's run, for illustration *)
+Lemma ping_fixed_completes :
+  let c := mkCfg 0 true true true true [(1, [HPing 9])] [(9, 0%nat)] [] in
+  let s := run_canon 100 c (init [1; 2] 0) in
+  quiescent c s = true /\ map fst (log s) = [1; 2] /\ sigd s = [9] /\ length (loops s) = 2%nat.
+Proof. vm_compute. repeat split; reflexivity. Qed.
+
+(* ---- the code before the repair of handleReq (a loop that found the message-ID lock taken just blocked): the peer
+   retransmits its confirmable request 1 (message 2, same message ID) while the handler of 1 waits in a nested request
+   for message 3; the replacement loop blocks on the lock held by that handler and nobody is left to take the
+   response out of the queue ---- *)
+Definition dup_old_cfg : cfg := mkCfg 0 true true false true [(1, [HNested 3])] [] [(1, (0, 500)); (2, (0, 500))].
+Definition dup_old_sched : list act :=
+  let L0 := ALoop 0 AltQueue in let L1 := ALoop 1 AltQueue in
+  [APush; L0; L0; L0; L0;      (* request 1 is dispatched, its handler issues a nested request: loop 1 takes over *)
+   APush; L1; L1; L1;          (* the retransmitted copy 2 is dispatched by loop 1: the lock of message ID 500 is taken *)
+   APush].                     (* the response 3 arrives *)
+
+Theorem dup_stalls_refuted :
+  exists c msgs k sched s,
+    fixed c = true /\ pingfix c = true /\ ackfix c = true /\ lockfix c = false /\ NoDup msgs /\ own_key c 3 /\
+    run c (init msgs k) sched = Some s /\ quiescent c s = true /\ closed s = false /\
+    msgs = [1; 2; 3] /\ map fst (log s) = [1; 2] /\ queue s = [3] /\ prod s = [] /\
+    (exists lp, nth_error (loops s) 0 = Some lp /\ l_pc lp = PWait 1 3 []) /\
+    (exists lp, nth_error (loops s) 1 = Some lp /\ l_pc lp = PLock 2) /\ length (loops s) = 2%nat /\
+    none_dropped (obs_of msgs s false) = false.
+Proof.
+  exists dup_old_cfg, [1; 2; 3], 0%nat, dup_old_sched.
+  eexists. split; [reflexivity|]. split; [reflexivity|]. split; [reflexivity|]. split; [reflexivity|].
+  split; [repeat constructor; cbn; intuition lia|].
+  split. { intros m _. change (key_of dup_old_cfg 3) with (@None Z). destruct (key_of dup_old_cfg m); reflexivity. }
+  split; [vm_compute; reflexivity|].
+  split; [vm_compute; reflexivity|]. split; [reflexivity|]. split; [reflexivity|].
+  split; [reflexivity|]. split; [reflexivity|]. split; [reflexivity|].
+  split; [eexists; split; reflexivity|]. split; [eexists; split; reflexivity|].
+  split; reflexivity.
+Qed.
+
+Lemma dup_fixed_completes :
+  let c := mkCfg 0 true true true true [(1, [HNested 3])] [] [(1, (0, 500)); (2, (0, 500))] in
+  let s := run_canon 100 c (init [1; 2; 3] 0) in
+  quiescent c s = true /\ map fst (log s) = [1; 2; 3] /\ length (loops s) = 3%nat /\
+  forallb (fun lp => negb (blocked_pc (l_pc lp))) (loops s) = true.
+Proof. vm_compute. repeat split; reflexivity. Qed.
+
+(* ---- the code before the other repair of handleReq (every message took the lock of its message ID): the peer's
+   non-confirmable request 1 has message ID 1001; its handler issues a confirmable nested request that draws the
+   connection's own next message ID, 1001 as well (checkMyMessageID only looks at confirmable messages of the peer);
+   the piggybacked response 2 carries that ID: its acknowledgement part (signal 2) is handled by the socket reader,
+   its dispatch blocks on the lock held by the very handler that waits for it ---- *)
+Definition ack_old_cfg : cfg :=
+  mkCfg 1 true true true false [(1, [HAck 2; HNested 2])] [(2, 1%nat)] [(1, (1, 1001)); (2, (2, 1001))].
+
+Theorem ack_collision_refuted :
+  exists c msgs k sched s,
+    fixed c = true /\ repaired_waits c = true /\ ackfix c = false /\ NoDup msgs /\ sigs_wf c msgs /\
+    run c (init msgs k) sched = Some s /\ quiescent c s = true /\ closed s = false /\
+    msgs = [1; 2] /\ map fst (log s) = [1; 2] /\ queue s = [] /\ prod s = [] /\ sigd s = [2] /\
+    (exists lp, nth_error (loops s) 0 = Some lp /\ l_pc lp = PWait 1 2 []) /\
+    (exists l lp, nth_error (loops s) l = Some lp /\ l_pc lp = PLock 2) /\
+    never_stalls (obs_of msgs s false) = false.
+Proof.
+  exists ack_old_cfg, [1; 2], 0%nat, (canon_sched 100 ack_old_cfg (init [1; 2] 0)).
+  eexists. split; [reflexivity|]. split; [reflexivity|]. split; [reflexivity|].
+  split; [repeat constructor; cbn; intuition lia|].
+  split. { intros r q [H|[]]. injection H as <- <-. cbn. lia. }
+  split; [vm_compute; reflexivity|].
+  split; [vm_compute; reflexivity|]. split; [reflexivity|]. split; [reflexivity|].
+  split; [reflexivity|]. split; [reflexivity|]. split; [reflexivity|]. split; [reflexivity|].
+  split; [eexists; split; reflexivity|].
+  split; [exists 1%nat; eexists; split; reflexivity|].
+  reflexivity.
+Qed.
+
+Lemma ack_fixed_completes :
+  let c := mkCfg 1 true true true true [(1, [HAck 2; HNested 2])] [(2, 1%nat)] [(1, (1, 1001)); (2, (2, 1001))] in
+  let s := run_canon 100 c (init [1; 2] 0) in
+  quiescent c s = true /\ map fst (log s) = [1; 2] /\ sigd s = [2] /\
+  forallb (fun lp => negb (blocked_pc (l_pc lp))) (loops s) = true.
+Proof. vm_compute. repeat split; reflexivity. Qed.
 
 (* the executable test used by the harness and the examples decides [terminal] *)
 Lemma quiescent_terminal c s : quiescent c s = true -> terminal c s.
@@ -863,17 +1313,23 @@ Proof.
   unfold quiescent. intros H a Ha.
   destruct (step c s APush) eqn:E1; try discriminate.
   destruct (step c s AExt) eqn:E2; try discriminate.
-  apply negb_true_iff in H.
-  destruct a as [| | |l a]; auto; try congruence.
-  cbn. destruct (Nat.lt_ge_cases l (length (loops s))) as [Hlt|Hge].
-  - assert (Hl : loop_enabled c s l = false).
-    { destruct (loop_enabled c s l) eqn:El; auto.
-      assert (existsb (loop_enabled c s) (seq 0 (length (loops s))) = true); [|congruence].
-      apply existsb_exists. exists l. split; auto. apply in_seq. lia. }
-    unfold loop_enabled in Hl.
-    destruct (step_loop c s l AltDone) eqn:A1; try discriminate.
-    destruct (step_loop c s l AltQueue) eqn:A2; try discriminate.
-    destruct (step_loop c s l AltConn) eqn:A3; try discriminate.
-    now destruct a.
-  - unfold step_loop. apply nth_error_None in Hge. now rewrite Hge.
+  apply andb_true_iff in H as [Hsig H].
+  apply negb_true_iff in H. apply negb_true_iff in Hsig.
+  destruct a as [| | |r|l a]; auto; try congruence.
+  - cbn. destruct (sig_enabled c s r) eqn:Es; auto. exfalso.
+    pose proof Es as Es0. unfold sig_enabled in Es. apply andb_true_iff in Es as [_ Es].
+    apply existsb_exists in Es as (e & Hin & He). apply andb_true_iff in He as [He _]. apply Z.eqb_eq in He.
+    assert (existsb (fun e => sig_enabled c s (fst e)) (sigs c) = true); [|congruence].
+    apply existsb_exists. exists e. split; auto. now rewrite He.
+  - cbn. destruct (Nat.lt_ge_cases l (length (loops s))) as [Hlt|Hge].
+    + assert (Hl : loop_enabled c s l = false).
+      { destruct (loop_enabled c s l) eqn:El; auto.
+        assert (existsb (loop_enabled c s) (seq 0 (length (loops s))) = true); [|congruence].
+        apply existsb_exists. exists l. split; auto. apply in_seq. lia. }
+      unfold loop_enabled in Hl.
+      destruct (step_loop c s l AltDone) eqn:A1; try discriminate.
+      destruct (step_loop c s l AltQueue) eqn:A2; try discriminate.
+      destruct (step_loop c s l AltConn) eqn:A3; try discriminate.
+      now destruct a.
+    + unfold step_loop. apply nth_error_None in Hge. now rewrite Hge.
 Qed.
